@@ -236,7 +236,7 @@ pub fn dynamized(ty: &Ty) -> Ty {
             let rec = |r: &crate::ty::Record| crate::ty::Record { fields: r.fields.iter().map(|f| crate::ty::Field { ty: dynamized(&f.ty), ..f.clone() }).collect(), steps: r.steps.clone() };
             let body = match &d.body {
                 DeclBody::Struct(r) => DeclBody::Struct(rec(r)),
-                DeclBody::Enum { sorted, variants } => DeclBody::Enum { sorted: *sorted, variants: variants.iter().map(|v| crate::ty::Variant { record: rec(&v.record), ..v.clone() }).collect() },
+                DeclBody::Enum { sorted, variants, steps } => DeclBody::Enum { sorted: *sorted, variants: variants.iter().map(|v| crate::ty::Variant { record: rec(&v.record), ..v.clone() }).collect(), steps: steps.clone() },
             };
             Adt(std::sync::Arc::new(crate::ty::Decl { name: format!("Dyn_{}", d.name), body }))
         }
